@@ -178,6 +178,7 @@ int sbdf_read_metadata_values(FILE* in, sbdf_valuetype vt, sbdf_metadata* out)
 	{
         if (v != 1)
         {
+            sbdf_obj_destroy(value);
             return SBDF_ERROR_ARRAY_LENGTH_MUST_BE_1;
         }
 
